@@ -51,6 +51,17 @@ EXTRA = [
 ]
 
 
+def _stacked(k, imp):
+    cm = "".join("\t\t/*c%d*/\n" % i for i in range(k))
+    return "package p\n\n%sfunc f(names []string) {\n\tfor _,\n%s\t\tname := range names {\n\t\tfoo(name)\n\t}\n}\n" % (imp, cm)
+
+
+# go/printer is not idempotent on comments stacked inside a range header: what imports.Process RETURNS (printed once more
+# than what it was given) does not parse from three comments on (four under a parenthesised import block) - repo fix 72f3dbc
+EXTRA += [("stacked-comments-%d%s" % (k, tag), "@@\n@@\n-foo\n+bar\n", _stacked(k, imp))
+          for k in range(0, 7) for tag, imp in (("", ""), ("-imports", "import (\n\t\"fmt\"\n\t\"os\"\n)\n\nvar _ = fmt.Sprint(os.Args)\n\n"))]
+
+
 # what stands between the package clause and the code: go/format re-parses only under some of these, and
 # import "C" files are special to the import processing
 HEADERS = [("none", ""), ("cgo", "// #include <stdio.h>\nimport \"C\"\n\n"), ("single", "import \"os\"\n\n"), ("grouped", "import (\n\t\"fmt\"\n\t\"os\"\n)\n\n"),
@@ -227,10 +238,11 @@ def main():
                       % (len(CTX) * len(REPL), len(CTX), len(REPL), len(EXTRA), "x skip-generated x -v" if thorough else ""))
     ck.cov["trusted_base"] = [
         "Coq 8.16.1 kernel; no axioms (Properties/C07.v closed under the global context)",
-        "oracle hypotheses of the theorems: process_validates / process_rejects (imports.Process returns only parseable text and rejects unparseable input) — exercised on every case, not proved",
+        "oracle hypothesis of ONE theorem (C07_unparseable_is_error): process_rejects (imports.Process rejects unparseable input) — exercised on every case, not proved; "
+        "C07_emitted_parses / C07_api_parses hold for every behaviour of imports.Process since gopatch parses what it emits (repo fix 72f3dbc)",
         "extraction + OCaml driver + lib/clicorr.py; go/parser as the judge of 'parses'",
     ]
-    ck.assumptions = ["imports.Process(FormatOnly) validates (oracle)", "go/parser with AllErrors is the definition of 'parses as a Go source file'"]
+    ck.assumptions = ["imports.Process(FormatOnly) rejects input that does not parse (oracle, for the error-reporting theorem only)", "go/parser with AllErrors is the definition of 'parses as a Go source file'"]
     return ck.finish()
 
 
